@@ -38,7 +38,7 @@ def optNat (j : Json) (k : String) : Option Nat :=
 
 def parseTDef (j : Json) (oid : Nat) : TDef :=
   { deps := jnats j "deps", loader := optNat j "loader", fileDep := jnats j "fileDep", targets := jnats j "targets",
-    oid := oid }
+    act := jbool j "act", oid := oid }
 
 def parseTasks (xs : List Json) : List (Nat × TDef) :=
   (xs.zipIdx).map fun (x, i) => match asArr x with
@@ -46,7 +46,8 @@ def parseTasks (xs : List Json) : List (Nat × TDef) :=
     | _ => (0, {})
 
 def parseNew (j : Json) : NewTask :=
-  { name := jnat j "name", deps := jnats j "deps", fileDep := jnats j "fileDep", targets := jnats j "targets" }
+  { name := jnat j "name", deps := jnats j "deps", fileDep := jnats j "fileDep", targets := jnats j "targets",
+    act := jbool j "act" }
 
 structure Case where
   pre : Pre
@@ -106,12 +107,19 @@ structure Ctx where
   obs : List Ev            -- oldest first; without the `start` events when `par`
   obsErr : String
   obsExit : Nat
+  obsStarted : List Nat    -- tasks whose action started (any position)
 
-def hiddenEv (ctx : Ctx) : Ev → Bool
-  | .start n => ctx.par || ctx.inp.noAct n
+/-- the task registered under `n` has an action -/
+def actOf (s : Sys) (n : Nat) : Bool :=
+  match s.tasks n with
+  | some td => td.act
+  | none => false
+
+def hiddenEv (ctx : Ctx) (s : Sys) : Ev → Bool
+  | .start n => ctx.par || !actOf s n
   | _ => false
 
-def visOf (ctx : Ctx) (s : Sys) : List Ev := (s.events.filter (fun e => !hiddenEv ctx e)).reverse
+def visOf (ctx : Ctx) (s : Sys) : List Ev := (s.events.filter (fun e => !hiddenEv ctx s e)).reverse
 
 def errStr : Susp → String
   | .err .cyclic => "cyclic"
@@ -142,18 +150,25 @@ def isTerminal (s : Sys) : Bool :=
   | .idle => s.running.isEmpty && s.stop
   | _ => false
 
+/-- the tasks with an action the model has started -/
+def startedOf (s : Sys) : List Nat :=
+  s.events.filterMap fun e => match e with | .start n => if actOf s n then some n else none | _ => none
+
 def acceptEnd (ctx : Ctx) (s : Sys) (v : List Ev) : Bool :=
-  isTerminal s && errStr s.susp == ctx.obsErr && exitCode s == ctx.obsExit &&
+  isTerminal s && ctx.obsStarted.all ((startedOf s).contains ·) && errStr s.susp == ctx.obsErr && exitCode s == ctx.obsExit &&
     (match s.susp with
      | .err _ => (ctx.obs.drop v.length).all fun e => s.running.any fun m => e.reports m
      | _ => v.length == ctx.obs.length)
 
-partial def dfs (ctx : Ctx) (s : Sys) : StateM Nat (Option Sys) := do
-  let n ← get
+partial def dfs (ctx : Ctx) (s : Sys) : StateM (Nat × Nat × String) (Option Sys) := do
+  let (n, best, bs) ← get
   if n = 0 then return none
-  set (n - 1)
   let v := visOf ctx s
-  if !(v.isPrefixOf ctx.obs) then return none
+  if !(v.isPrefixOf ctx.obs) || !((startedOf s).all (ctx.obsStarted.contains ·)) then
+    set (n - 1, best, bs)
+    return none
+  if v.length ≥ best then set (n - 1, v.length, reprStr s.susp ++ " running=" ++ toString s.running ++ " stop=" ++ toString s.stop)
+  else set (n - 1, best, bs)
   if acceptEnd ctx s v then return some s
   for c in moves ctx s do
     match step ctx.inp s c with
@@ -173,11 +188,17 @@ partial def simulate (ctx : Ctx) (s : Sys) (fuel : Nat) : Sys :=
 
 /-! ### the monitors' static inputs, derived from the case -/
 
+/-- the creator outputs under the creators' own names (`to_load` = a task of the loaded table) -/
+def normalMake (c : Case) : List (CId × Nat × List NewTask) :=
+  c.makeTab.filter fun e => (lookup0 c.pre.tasks e.2.1).isSome
+
+/-- the dependency table the created tasks are judged by: task_deps of the loaded / placeholder tasks, and of every
+    task a creator yields (with the implicit dependency on the producer of a file_dep) -/
 def depsAll (c : Case) (st : FState) (t : Nat) : List Nat :=
   (match lookup0 st.tasks t with | some td => td.deps | none => []) ++
-    (c.makeTab.flatMap fun e => (e.2.2.filter (fun nt => nt.name == t)).flatMap fun nt =>
+    ((normalMake c).flatMap fun e => (e.2.2.filter (fun nt => nt.name == t)).flatMap fun nt =>
       nt.deps ++ (nt.fileDep.filterMap fun f =>
-        (c.makeTab.findSome? fun e2 => (e2.2.2.find? (fun n2 => n2.targets.contains f)).map (·.name))))
+        ((normalMake c).findSome? fun e2 => (e2.2.2.find? (fun n2 => n2.targets.contains f)).map (·.name))))
 
 def closure (deps : Nat → List Nat) : Nat → List Nat → List Nat → List Nat
   | 0, _, acc => acc
@@ -185,11 +206,15 @@ def closure (deps : Nat → List Nat) : Nat → List Nat → List Nat → List N
   | fuel + 1, t :: todo, acc =>
     if acc.contains t then closure deps fuel todo acc else closure deps fuel (deps t ++ todo) (t :: acc)
 
-/-- the producers of command-line word `w`: tasks created (under the creator's own name) by a creator whose loader
-    matches `w`, and that declare `w` as a target -/
+/-- the producers of command-line word `w` among the creators whose loader matches `w`: tasks created (under the
+    creator's own name) that declare `w` as a target -/
 def producers (c : Case) (w : Nat) : List Nat :=
   (matched c.pre w c.pre.tasks).flatMap fun (t, l) =>
     ((mkMake c.makeTab (c.pre.creatorOf l) t).filter (fun nt => nt.targets.contains w)).map (·.name)
+
+/-- … among all creators (a target may be registered by a creator that was evaluated for another reason) -/
+def producersAll (c : Case) (w : Nat) : List Nat :=
+  (normalMake c).flatMap fun e => (e.2.2.filter (fun nt => nt.targets.contains w)).map (·.name)
 
 inductive WordKind | task | target (owner : Nat) | sub (l : LId) | rx | unknown
 deriving Repr
@@ -216,7 +241,7 @@ def roots (c : Case) : List Nat :=
     | .task => [wd.w]
     | .target t => [t]
     | .sub l => wd.w :: trigL c l
-    | .rx => producers c wd.w ++ ((matched c.pre wd.w c.pre.tasks).flatMap fun (_, l) => trigL c l)
+    | .rx => producersAll c wd.w ++ ((matched c.pre wd.w c.pre.tasks).flatMap fun (_, l) => trigL c l)
     | .unknown => []
 
 /-- C15 `target` on an observed run (events oldest first) -/
@@ -228,15 +253,16 @@ def targetOK (c : Case) (st? : Option FState) (obs : List Ev) (err : String) (ex
   let outside := started.filter fun n => !allowed.contains n
   let ws := c.sel.getD []
   let rxWords := ws.filter fun wd => match wordKind c wd with | .rx => true | .unknown => true | _ => false
-  let orphan := rxWords.filter fun wd => (producers c wd.w).isEmpty
+  let orphan := rxWords.filter fun wd => (producersAll c wd.w).isEmpty
+  let orphanM := rxWords.filter fun wd => (producers c wd.w).isEmpty
   let failed := obs.any fun e => match e with | .failure _ => true | .unmet _ => true | _ => false
   let good (n : Nat) : Bool := obs.any fun e => e == .success n || e == .skipUtd n
   if !outside.isEmpty then (false, s!"executed outside the closure of the selection: {outside}")
   else if !orphan.isEmpty && !failed && err != "notfound" then
     (false, s!"a target nobody produces was not reported as an error: {orphan.map (·.w)}")
-  else if orphan.isEmpty && err == "notfound" then (false, "not-found error although every target has a producer")
+  else if orphanM.isEmpty && err == "notfound" then (false, "not-found error although every target has a producer")
   else if exit == 0 && err == "none" &&
-      rxWords.any (fun wd => !(producers c wd.w).any good) then
+      rxWords.any (fun wd => !(producersAll c wd.w).any good) then
     (false, s!"exit 0 but the producer of a selected target was not processed")
   else (true, "")
 
@@ -269,17 +295,17 @@ def handle (j : Json) : Json :=
   | .inr st =>
     let inp := inputOf c st
     let obsM := if par then obsAll.filter (fun e => match e with | .start _ => false | _ => true) else obsAll
-    let ctx : Ctx := { inp := inp, par := par, obs := obsM, obsErr := obsErr, obsExit := obsExit }
+    let startedObs := (obsAll.filterMap fun e => match e with | .start n => some n | _ => none)
+    let ctx : Ctx := { inp := inp, par := par, obs := obsM, obsErr := obsErr, obsExit := obsExit, obsStarted := startedObs }
     let op := jstr j "op"
     let sim := simulate ctx (init inp) 100000
     let simJ := Json.mkObj [("events", mkArr ((visOf { ctx with par := false } sim).map evJson)),
                             ("err", Json.str (errStr sim.susp)), ("exit", toJson (exitCode sim)),
                             ("susp", Json.str (reprStr sim.susp))]
     if op == "simulate" then Json.mkObj [("model", simJ), ("selected", ofNats st.selected)] else
-    let (res, left) := (dfs ctx (init inp)).run budget
-    let startedObs := (obsAll.filterMap fun e => match e with | .start n => some n | _ => none)
+    let (res, left, best, bestS) := (dfs ctx (init inp)).run (budget, 0, "")
     let startedOK := match res with
-      | some s => let ms := (s.events.filterMap fun e => match e with | .start n => if inp.noAct n then none else some n | _ => none)
+      | some s => let ms := (s.events.filterMap fun e => match e with | .start n => if actOf s n then some n else none | _ => none)
                   ms.all (startedObs.contains ·) && startedObs.all (ms.contains ·)
       | none => false
     let deps := depsAll c st
@@ -290,6 +316,7 @@ def handle (j : Json) : Json :=
       ("accept", boolJ (res.isSome && startedOK)),
       ("exhausted", boolJ (left == 0)),
       ("visited", toJson (budget - left)),
+      ("best_prefix", toJson best), ("best_state", Json.str bestS),
       ("model", simJ),
       ("selected", ofNats st.selected),
       ("wf", Json.mkObj [("resolves", boolJ (resolvesB inp)), ("covers", boolJ (coversB inp)), ("trig", boolJ (trigB inp))]),
